@@ -116,10 +116,17 @@ def impl(case):
         for k, s in case['variants'].items():
             if list(s['flags']) != list(cur['flags']):
                 obj.valid = list(s['flags'])
+            inplace = (len(out) % 2 == 0)       # every other variant: the arrays are updated in place instead of being re-assigned
             if list(s['flux']) != list(cur['flux']):
-                obj.flux = list(s['flux'])
+                if inplace:
+                    obj.flux[:] = s['flux']
+                else:
+                    obj.flux = list(s['flux'])
             if list(s['err']) != list(cur['err']):
-                obj.error = list(s['err'])
+                if inplace:
+                    obj.error[:] = s['err']
+                else:
+                    obj.error = list(s['err'])
             cur = s
             out['reuse_' + k] = fitcase.info_out(fitter.fit(obj))
         # the same object with ONLY its flags re-assigned: the first fitted band becomes unused (0) / plot-only (9), then fitted again
